@@ -84,6 +84,17 @@ InvC13 ==
                           /\ SeqBag(ReqKeys(m.reqs)) = SeqBag(ReqKeys(e.out.reqs))
                           /\ Cardinality({i \in 1..Len(m.data.trace) : m.data.trace[i].k \in {"ap", "exec"}})
                              = Cardinality({i \in 1..Len(e.out.data.trace) : e.out.data.trace[i].k \in {"ap", "exec"}}))
+\* C13 on the model's own streams (the model reproduces the code run by run): no stream fold of this run ended
+\* without an iteration for a value its stream held (AirInterp!ExecFoldStream)
+InvC13model ==
+    IsRun =>
+        LET e == Last  m == ModelOutcome(pre, e) IN
+        (SupportedRun(m, e) /\ Diff(m, e.out) = "") =>
+            \/ m.c13 = <<>>
+            \* known finding: the values missed were restored from the peer's own previous data into generations the
+            \* fold's cursor had passed; anything else missed is reported without the tag
+            \/ ((\A k \in 1..Len(m.c13) : m.c13[k].fromPrev) /\ PrintT(<<"VIOLATION", "C13", e.hid, e.step, "fold-missed-value">>))
+            \/ PrintT(<<"VIOLATION", "C13", e.hid, e.step>>)
 \* C12: relative generation order of the stream values, against the previous data of the peer (model-free) and
 \* against the model (same relative order of every pair of stream values, whatever the numbers)
 StreamVals(tr) == {i \in 1..Len(tr) : tr[i].k = "exec" /\ tr[i].vt = "stream"}
